@@ -20,10 +20,21 @@ import struct
 import time
 
 from ..common import Ctx, setup_repo_path
-from ..tlc import MachineryError, run_tlc, scratch_dir
+from ..tlc import MachineryError, scratch_dir
+from ..tlc import run_tlc as _run_tlc
 
 PID = "C03"
 SEG = 1500          # deliveries per trace segment (segments are validated in parallel by TLC)
+
+
+def run_tlc(*a, **k):
+    """run_tlc with the wall time measured on a clock the virtual-time loop does not replace"""
+    t0 = time.perf_counter()
+    r = _run_tlc(*a, **k)
+    r.wall = time.perf_counter() - t0
+    return r
+
+
 _BAD = re.compile(r'<<"C03BAD", (\d+), (\d+), "([a-z-]+)">>')
 _DRIFT = re.compile(r'<<"C03DRIFT", (\d+), (\d+)>>')
 
@@ -46,6 +57,7 @@ class Rx:
         self.segments = []      # every trace segment (one world = several segments)
         self.jobs = []          # (segments of one world, future of tlc_validate)
         self.n_recv = 0
+        self.ok, self.drift_total, self.n_events = True, 0, 0
 
     def world(self, chain, overlays, port=8090, traced=True, sinks=True):
         random.seed(self.seed)
@@ -274,17 +286,28 @@ class Rx:
     def rejects(self, segments):
         return not self.tlc_validate(segments, True)[0].ok
 
-    def apply_all(self, tag):
-        ok, drift_total = True, 0
-        for i, (segs, fut) in enumerate(self.jobs):
+    def apply_done(self, tag, wait=False):
+        """take over the results of finished validations and release their traces (memory)"""
+        for i, job in enumerate(self.jobs):
+            if job is None or not (wait or job[1].done()):
+                continue
+            segs, fut = job
             r, bads, drift = fut.result()
             self.ctx.add_tlc("%s_%d" % (tag, i + 1), r)
             self.report(segs, bads)
-            drift_total += drift
-            ok = ok and not bads
-        self.ctx.note("receive_exactness", {"events": sum(len(s["events"]) for s in self.segments),
-                                            "events_differing_from_exact_spec_outcome(>=)": drift_total})
-        return ok
+            self.drift_total += drift
+            self.n_events += sum(len(s["events"]) for s in segs)
+            self.ok = self.ok and not bads
+            self.jobs[i] = None
+            if i > 0:
+                for sg in segs:
+                    sg["events"] = []
+
+    def apply_all(self, tag):
+        self.apply_done(tag, wait=True)
+        self.ctx.note("receive_exactness", {"events": self.n_events,
+                                            "events_differing_from_exact_spec_outcome(>=)": self.drift_total})
+        return self.ok
 
     def report(self, segments, bads):
         groups = {}
@@ -326,7 +349,9 @@ class Dx:
         self.X, self.ctx, self.tier = X, ctx, tier
         self.rng = random.Random(seed + 17)
         self.wire = X.Wire()
-        self.gen = X.Gen(self.rng, default_eccrypto.generate_key("curve25519").pub().key_to_bin())
+        self.gen = X.Gen(self.rng, default_eccrypto.generate_key("curve25519").pub().key_to_bin(), self.wire.arr_fmt)
+        self.sfx = "BE.cfg" if self.wire.arr_be else ".cfg"
+        ctx.note("array_count_byte_order", "big-endian" if self.wire.arr_be else "native (little-endian)")
         self.events = []
         self.rejected = 0
         self.kept_rejected = 0
@@ -426,13 +451,13 @@ class Dx:
             path = os.path.join(tmp, "decodes.json")
             with open(path, "w", encoding="utf-8") as f:
                 json.dump(batches, f, separators=(",", ":"))
-            r = run_tlc("WireStrictTrace.tla", "WireStrictTrace.cfg", env={"TRACE_FILE": path}, coverage=False,
+            r = run_tlc("WireStrictTrace.tla", "WireStrictTrace" + self.sfx, env={"TRACE_FILE": path}, coverage=False,
                         java_opts=("-Xss32m",), workers=4)
             if expect_reject:
                 return r, [], 0, batches
             bads, drift = [], len(_DRIFT.findall(r.output))
             if not r.ok:
-                d = run_tlc("WireStrictTrace.tla", "WireStrictTraceDiag.cfg", env={"TRACE_FILE": path}, coverage=False,
+                d = run_tlc("WireStrictTrace.tla", "WireStrictTraceDiag" + self.sfx, env={"TRACE_FILE": path}, coverage=False,
                             java_opts=("-Xss32m",), workers=4)
                 bads = [(int(a), int(b), c) for a, b, c in _BAD.findall(d.output)]
                 if not bads:
@@ -639,7 +664,7 @@ def run(tier, seed, replay=None):
                         "(decode_map / decode_map_private); dispatch on them is what is checked",
                         "AEAD of ipv8_rust_tunnels is trusted: a cell sealed by the harness with the far end's keys "
                         "decrypts, anything else does not",
-                        "array counts use the platform's native byte order (format 'H'), little-endian here",
+                        "the byte order of an array's count is taken from the length format the Serializer registers for it (C02 decides which order is right)",
                         "Flags.unpack's wrong return value (C02) is kept out of the inputs (flags only at offset 0)"]
     specs = SpecRuns(tier)
 
@@ -647,8 +672,10 @@ def run(tier, seed, replay=None):
     rx = Rx(ctx, tier, seed)
     rng = random.Random(seed)
     if quick:
+        # (behind a StatisticsEndpoint only the first overlay ends up in the UDP endpoint's tables - see c03_world -
+        # so the multiplexed world of the quick tier sits on TunnelEndpoint(UDPEndpoint))
         plans = [("udp", ["TunnelCommunity"], True),
-                 ("tstats", ["PlainCommunity", "PlainTwin", "DiscoveryCommunity", "DHTDiscoveryCommunity",
+                 ("tunnel", ["PlainCommunity", "PlainTwin", "DiscoveryCommunity", "DHTDiscoveryCommunity",
                              "HiddenTunnelCommunity", "PexCommunity", "IdentityCommunity", "AttestationCommunity"], False),
                  ("stats", ["PlainCommunity", "DHTCommunity"], True)]
     else:
@@ -667,6 +694,7 @@ def run(tier, seed, replay=None):
         rx.feed(w, rng, peer, quick)
         segs = rx.add_world(w)
         rx.jobs.append((segs, specs.pool.submit(rx.tlc_validate, segs)))
+        rx.apply_done("receive_trace")
         for ev in w.events:
             if ev["op"] == "recv":
                 ctx.nontrivial(("rx", chain, tuple(names), ev["len"], tuple(ev["head"]), ev["enc"]))
